@@ -5,6 +5,7 @@ import (
 	"go/constant"
 	"go/token"
 	"go/types"
+	"os"
 	"regexp/syntax"
 	"strings"
 
@@ -751,6 +752,12 @@ func (l *Lin) axioms(s *system, t Term, at ssa.Instruction) {
 				a, off := l.Expr(call.Call.Args[1])
 				eq(t, a, off, "summary: GetBytes(n) returns n bytes when err == nil")
 			}
+		case t.K == TLen && callee != nil && l.P != nil && l.P.InScope(callee) && len(callee.Blocks) > 0 && onNilEdgeOrNoErr(l, call, at):
+			// a helper of the scope whose successful returns all hand back make(T, param): len(result) == argument
+			if pi, ok := returnsMakeOfParam(callee, v.Index); ok && pi < len(call.Call.Args) {
+				a, off := l.Expr(call.Call.Args[pi])
+				eq(t, a, off, "callee returns make(.., its parameter)")
+			}
 		}
 	case *ssa.Call:
 		callee := StaticCallee(v)
@@ -1486,6 +1493,25 @@ func (l *Lin) ImportCallContext(caller *Lin, call ssa.CallInstruction) int {
 			}
 		}
 	}
+	// goal-directed: an integer argument against the length of a slice argument / immutable slice field (an index
+	// the caller has already bounded: `for i := range n { h(i) }` with n == len(field))
+	for _, x := range ps {
+		if x.cal.K != TVal || x.cal.V == nil {
+			continue
+		}
+		for _, y := range ps {
+			if y.cal.K != TLen {
+				continue
+			}
+			for _, k := range []int64{-1, 0} {
+				if caller.Prove(call, x.ct, y.ct, k-x.co) {
+					l.Assume = append(l.Assume, fact{x.cal, y.cal, k, "call-site context (proved at the call)"})
+					n++
+					break
+				}
+			}
+		}
+	}
 	for _, x := range ps {
 		xi := sys.id(x.ct)
 		// against zero
@@ -1509,5 +1535,53 @@ func (l *Lin) ImportCallContext(caller *Lin, call ssa.CallInstruction) int {
 			}
 		}
 	}
+	if os.Getenv("PWV_LINDEBUG") != "" {
+		for _, q := range ps {
+			fmt.Fprintf(os.Stderr, "ctx-pair %s: caller %s+%d callee %s\n", l.Fn.Name(), q.ct, q.co, q.cal)
+		}
+		for _, f := range l.Assume {
+			fmt.Fprintf(os.Stderr, "ctx-fact %s: %s - %s <= %d (%s)\n", l.Fn.Name(), f.x, f.y, f.k, f.why)
+		}
+	}
 	return n
+}
+
+func onNilEdgeOrNoErr(l *Lin, call *ssa.Call, at ssa.Instruction) bool {
+	idx := ErrorResultIndex(call.Call.Signature())
+	if idx < 0 {
+		return true
+	}
+	return l.onNilEdge(call, idx, at)
+}
+
+// returnsMakeOfParam: every return of fn whose error result may be nil returns, as result idx, a MakeSlice made in fn
+// whose length is one of fn's parameters.
+func returnsMakeOfParam(fn *ssa.Function, idx int) (int, bool) {
+	pi := -1
+	n := 0
+	for _, b := range fn.Blocks {
+		ret, ok := b.Instrs[len(b.Instrs)-1].(*ssa.Return)
+		if !ok || idx >= len(ret.Results) || b == fn.Recover {
+			continue
+		}
+		if c, isConst := ret.Results[idx].(*ssa.Const); isConst && c.Value == nil {
+			continue // the failing returns
+		}
+		ms, ok := ret.Results[idx].(*ssa.MakeSlice)
+		if !ok {
+			return 0, false
+		}
+		found := -1
+		for i, p := range fn.Params {
+			if StripConv(ms.Len) == ssa.Value(p) {
+				found = i
+			}
+		}
+		if found < 0 || (pi >= 0 && pi != found) {
+			return 0, false
+		}
+		pi = found
+		n++
+	}
+	return pi, n > 0
 }
